@@ -63,6 +63,27 @@ def check_query(F, rep, q, kind):
     outs = some_outcomes(an)
     rep.require(len(outs) >= 1, "query", q + ":some", w, "has a record-yielding outcome", "%s never yields a record" % q)
     getv = T.call("parse::ParsingTable::get", ("E", "gnu_symver::VersionIndex"), [T.refval(T.proj(T.deref(T.param(1)), ("f", 0, "version_ids"))), T.param(2)])
+    # completeness: `Ok(None)` only because the table is absent or because the search ran out of records - an early `return Ok(None)`
+    # under any other condition (e.g. "unversioned" indices 0 / 1) hides records that the section does contain
+    tab_field = F_(me, "verneeds" if kind == "need" else "verdefs")
+    n_none = 0
+    for t_, st_ in an.ret_leaves() or []:
+        if not (t_.op == "agg" and t_.args[3] == "Ok" and t_.args[4][0].op == "agg" and t_.args[4][0].args[3] == "None"):
+            continue
+        n_none += 1
+        why = None
+        for f in st_.facts:
+            if f[0] == "var" and f[2] == "None" and isinstance(f[1], Term):
+                x = f[1]
+                nx = norm(x)
+                if nx == tab_field or (nx[0] == "call" and nx[1] == "option::Option::as_ref" and nx[2] == (tab_field,)):
+                    why = "table absent"
+                elif x.op == "call" and (x.args[0].endswith("::next") or x.args[0] in ("iter::find", "iter::find_map", "iter::Iterator::find", "iter::Iterator::find_map")):
+                    why = "search exhausted"
+        rep.require(why is not None, "query", q + ":none#%d" % n_none, w, "Ok(None) only when the table is absent or the search is exhausted",
+                    "%s returns Ok(None) on a path that is neither `table absent` nor `search exhausted` (guards: %s): records the section contains are not reported"
+                    % (q, sorted(pp(f[1])[:80] for f in st_.facts if f[0] in ("true", "false") and "phi" not in pp(f[1])[:80])[:4]))
+    rep.require(n_none >= 1, "query", q + ":none", w, "has an Ok(None) outcome", "%s never returns Ok(None)" % q)
     for val, st in outs:
         n = norm(val)
         msgs = []
